@@ -5,7 +5,7 @@ import random, math
 
 RULES = {
     'C08.B.lattice': 'EXHAUSTIVE whole arc-second lattice 0..359d59m59s, both signs (2 592 000 values): hp2dec, dec2hp, hp2dms, hp2ddm, HPAngle (accepted; .dec .dms .ddm .gon), DMSAngle(d,m,s) (.dec .hp .hpa .ddm), dec2dms, dec2ddm, DECAngle(.hpa .dms .ddm) - every result denotes the same angle within 1e-8 arc-seconds with the same sign, every HP value produced is valid HP',
-    'C08.B.vectorised': 'hp2dec_v / dec2hp_v on the whole lattice as arrays (1e-8 arc-seconds)',
+    'C08.B.vectorised': 'hp2dec_v / dec2hp_v on the whole lattice as arrays (1e-8 arc-seconds); the array handed over (also a column view of a table) holds the same values afterwards and converts to the same result a second time',
     'C08.B.pairs_chains': 'all ordered pairs of the nine notations and random length-3 chains over the conversion graph (direct functions and object methods) on a 1/60 sub-lattice, fractional seconds down to 1e-9", values within 1e-9" of minute/degree boundaries and random reals in [-720, 720], incl. angles in (-1, 0) deg: same angle within 1e-8", same sign',
     'C08.B.boundaries': 'every whole degree 0..720 and the minute boundaries d 00\' / d 01\' / d 30\' / d 59\' (quick: every degree; thorough: every minute of every 7th degree as well), both signs, approached from both sides at log-spaced distances 1e-1 .. 1e-10 arc-seconds (and 3e-10, 4.9e-10, 5e-10, 5.1e-10, 9e-10, the adjacent floats): decimal degrees -> each of the other eight notations denotes the same angle within 1e-8", every HP value produced is valid',
     'C08.B.validity': 'every HP value with up to 13 decimals and minutes/seconds < 60 is accepted by hp2dec, hp2dms, hp2ddm, HPAngle; HP values with a minutes or seconds field >= 60 are rejected with ValueError by hp2dec and HPAngle',
@@ -114,8 +114,22 @@ def work(item):
         ha, da = np.array(hps), np.array(decs)
         rv['n'] = 2 * len(hps)
         rv['keys'] = set((item['d0'], i) for i in range(rv['n']))
-        e1 = np.abs(A.hp2dec_v(ha.copy()) - da)
-        e2 = np.abs(np.array([hp_den(float(v)) for v in A.dec2hp_v(da.copy())]) - da)
+        hb, db = ha.copy(), da.copy()
+        first_h, first_d = A.hp2dec_v(hb), A.dec2hp_v(db)
+        e1 = np.abs(first_h - da)
+        e2 = np.abs(np.array([hp_den(float(v)) for v in first_d]) - da)
+        # the values the caller holds must still denote the same angles afterwards (a chain may convert them again), also through a column view
+        if not np.array_equal(hb, ha) or not np.array_equal(A.hp2dec_v(hb), first_h):
+            i = int(np.nonzero(hb != ha)[0][0]) if not np.array_equal(hb, ha) else 0
+            rv['failures'].append(dict(input=dict(hp=float(ha[i]), block=[item['d0'], item['d1']]), what='hp2dec_v changed the HP array it was given (a second conversion of the same array gives a different angle)', held_after=float(hb[i])))
+        if not np.array_equal(db, da) or not np.array_equal(A.dec2hp_v(db), first_d):
+            i = int(np.nonzero(db != da)[0][0]) if not np.array_equal(db, da) else 0
+            rv['failures'].append(dict(input=dict(dec=float(da[i]), block=[item['d0'], item['d1']]), what='dec2hp_v changed the array it was given', held_after=float(db[i])))
+        tab = np.column_stack([ha[:200], da[:200]])
+        col0 = tab[:, 0].copy()
+        A.hp2dec_v(tab[:, 0])
+        if not np.array_equal(tab[:, 0], col0):
+            rv['failures'].append(dict(input=dict(hp=float(col0[int(np.nonzero(tab[:, 0] != col0)[0][0])]), view=True), what='hp2dec_v changed the table column (view) it was given'))
         for i in np.nonzero(e1 > TOL)[0][:3]:
             rv['failures'].append(dict(input=dict(hp=float(ha[i])), what='hp2dec_v changes the angle', got=float(A.hp2dec_v(np.array([ha[i]]))[0])))
         if int((e1 > TOL).sum()) > 3:
